@@ -226,6 +226,8 @@ def run_check(check: Check, tier: str, replay: Optional[str] = None) -> int:
         d = check.compare(c, im, mo)
         if d is None:
             agree += 1
+        elif d.startswith("STUCK:"):
+            stuck += 1
         elif d.startswith("TIE:"):
             tie_divergent += 1
             tie_idx.append(i)
